@@ -1,5 +1,6 @@
 """C16: bulk operations do not depend on batch size or lookup strategy; merge helpers."""
 from .. import merge
+from . import _multi
 from ._store import replay_store, run_store
 
 QUICK = [('bulk', 100)]
@@ -8,6 +9,8 @@ THOROUGH = [('bulk', 1400)]
 
 def run(tier: str):
     rep = run_store('C16', tier, QUICK, THOROUGH)
+    # bulk requests through a long-open handle: the slow path has its own batching
+    rep.failures += _multi.stale_handle_failures('C16', 40 if tier == 'quick' else 500, ('bulk',), rep)
     merge.run_helpers(tier, rep)
     rep.distinct_nontrivial += rep.stats.get('helper_error_cases', 0)
     rep.rule += ('; plus every pair of lists (sorted and unsorted) over a small universe for detect_where_sorted/merge_sorted and random '
@@ -16,4 +19,5 @@ def run(tier: str):
 
 
 def replay(path: str) -> int:
-    return replay_store('C16', path)
+    r_ = _multi.replay_multi('C16', path)
+    return r_ if r_ is not None else replay_store('C16', path)
